@@ -308,6 +308,15 @@ theorem ctxGenFinish_resOK (cid : CtxId) (x : Ctx) (fid : Nat) (next : Option Ta
   · exact resumeWaiters_resOK _ _ _ h
   · exact resumeWaiters_resOK _ _ _ (storeGenerated_resOK _ _ _ _ h)
 
+theorem ctxCancelGet_resOK (cid : CtxId) (x : Ctx) (lid : TaskId) (next : Option TaskId)
+    (h : ResOK x.res) : ResOK (ctxCancelGet cid x lid next).1.res := by
+  unfold ctxCancelGet
+  split
+  · exact resumeWaiters_resOK _ _ _ h
+  · split
+    · exact h
+    · exact h
+
 theorem runBodyOp_resOK (cid : CtxId) (cur : Option CtxId) (x : Ctx) (op : BodyOp) (h : ResOK x.res) :
     ResOK (runBodyOp cid cur x op).1.res := by
   cases op with
@@ -464,6 +473,7 @@ theorem WorldOK_step (w : World) (op : Op) (hw : WorldOK w) : WorldOK (step w op
   | getNowait c k opt => exact WorldOK_onCtx _ _ _ hw (fun x hx => ctxGetNowait_resOK _ _ _ _ hx)
   | get t c k opt => exact WorldOK_onCtx _ _ _ hw (fun x hx => ctxGet_resOK _ _ _ _ _ hx)
   | genFinish c fid next => exact WorldOK_onCtx _ _ _ hw (fun x hx => ctxGenFinish_resOK _ _ _ _ hx)
+  | cancelGet c lid next => exact WorldOK_onCtx _ _ _ hw (fun x hx => ctxCancelGet_resOK _ _ _ _ hx)
   | getAll c ty => simp only [step]; split <;> exact hw
   | addTeardown c cb callable =>
     have hf : ∀ x : Ctx, ResOK x.res → ResOK ((if !x.state.usable then (x, [.runtimeError x.state])
